@@ -90,9 +90,16 @@ def observers(sk, keys):
     return hashlib.sha256("|".join(out).encode()).hexdigest()[:24]
 
 
-def random_sketch(rng, kind=None):
+def random_sketch(rng, kind=None, small=False):
     kind = kind or rng.choice(["linear", "log16", "log8", "hll", "hh"])
     keys = impl.special_keys(rng)[:14]
+    if small:
+        sk = {"linear": lambda: impl.countmin.CountMinLinear(3, 2), "log16": lambda: impl.countmin.CountMinLog16(3, 2),
+              "log8": lambda: impl.countmin.CountMinLog8(5, 2), "hll": lambda: impl.hyperloglog.HyperLogLog(7, 5),
+              "hh": lambda: impl.heavyhitters.HeavyHitters(2, 2, 3)}[kind]()
+        for k in keys[:6]:
+            sk.add(k, 2)
+        return sk, keys
     if kind == "linear":
         sk = impl.countmin.CountMinLinear(rng.choice([1, 2, 7, 33]), rng.choice([1, 2, 8]))
     elif kind in ("log16", "log8"):
@@ -120,13 +127,36 @@ def random_sketch(rng, kind=None):
     return sk, keys
 
 
+def corner_sketches(rng):
+    """Configurations at the edges of every parameter range (always part of the round trips)."""
+    cm, hl, hh = impl.countmin, impl.hyperloglog.HyperLogLog, impl.heavyhitters.HeavyHitters
+    zoo = [cm.CountMinLinear(1, 1), cm.CountMinLinear(1), cm.CountMinLog16(1, 1), cm.CountMinLog8(1, 1),
+           cm.CountMinLog16(2, 1, 70000, 0), cm.CountMinLog8(3, 2, 2**63, 253), cm.CountMinLog16(2, 2, 2**63, 65533),
+           hl(7, 2**64 - 1), hl(16, 0), hl(7, 2**63),
+           hh(1), hh(1, 1, 1), hh(1, 4, 16), hh(2, 1, 255), hh(3, 2, 4, 0.999), hh(3, 2, 4, 1e-9)]
+    keys = impl.special_keys(rng)[:10]
+    for i, sk in enumerate(zoo):
+        for j, k in enumerate(keys[: (i % 4) * 3]):
+            sk.add(k, j + 1)
+    return [(sk, keys) for sk in zoo]
+
+
 def roundtrips(rng, n):
     """save -> load through every loader that could be asked to read the file."""
     trips = []
-    for i in range(n):
-        kind = ["linear", "log16", "log8", "hll", "hh"][i % 5]
-        sk, keys = random_sketch(rng, kind)
+    todo = corner_sketches(rng) + [random_sketch(rng, ["linear", "log16", "log8", "hll", "hh"][i % 5]) for i in range(n)]
+    for i, (sk, keys) in enumerate(todo):
+        kind = cls_of(sk)
         path = impl.tmpfile()
+        if i % 3 == 0:
+            # the target path already holds a (longer) sketch file: save() replaces it
+            big, _k = random_sketch(rng, kind)
+            with open(path, "wb") as f:
+                f.write(b"\x00" * 70000)
+            try:
+                big.save(path)
+            except Exception:
+                pass
         sk.save(path)
         if kind in ("linear", "log16", "log8"):
             loaders = ["linear", "log16", "log8", "countmin.load"]
@@ -197,17 +227,33 @@ def parse_regions(b):
     return regions
 
 
-def prefix_events(rng, kind, stride=1):
-    sk, keys = random_sketch(rng, kind)
+def prefix_events(rng, kind, stride=1, overwrite=False):
+    sk, keys = random_sketch(rng, kind, small=overwrite)
     path = impl.tmpfile()
+    if overwrite:
+        # save() over an existing, longer sketch file of the same class: the file save() leaves
+        # behind is what gets truncated
+        make_bigger = {"linear": lambda: impl.countmin.CountMinLinear(40, 8),
+                       "log16": lambda: impl.countmin.CountMinLog16(60, 8), "log8": lambda: impl.countmin.CountMinLog8(120, 8),
+                       "hll": lambda: impl.hyperloglog.HyperLogLog(13), "hh": lambda: impl.heavyhitters.HeavyHitters(20, 4, 32)}
+        prev = make_bigger[kind]()
+        prev.add(b"previous", 3)
+        prev.save(path)
     sk.save(path)
     data = open(path, "rb").read()
     os.unlink(path)
-    regions = parse_regions(data)
+    try:
+        regions = parse_regions(data)
+    except MachineryError:
+        # the file save() produced is not the container the model describes (e.g. stale bytes
+        # after the end-of-central-directory record): one region, judged by the prefix sweep
+        regions = [["hdr", 0], ["name", 0], ["data", len(data)], ["cd", 0], ["eocd", 0]]
     loaders = [kind] + (["countmin.load"] if kind in ("linear", "log16", "log8") else [])
     want_state, want_obs = compat.digest(sk), observers(sk, keys)
     events = []
     p2 = impl.tmpfile()
+    if overwrite:
+        stride = 1 if len(data) < 3000 else 5
     offsets = list(range(0, len(data), stride)) + [len(data)]
     # always include the boundaries of every region and their neighbours
     acc = 0
